@@ -397,9 +397,9 @@ def run(ck):
             break
         for (nm, tol, isf), tok in zip(names_c, f_[1:]):
             r = dbl(tok)
-            xr = struct.unpack("<f", struct.pack("<f", x))[0] if isf else x   # the float overload sees x rounded to float
-            if isf and (abs(xr) < 1e-37 or abs(xr) > 1e37):
+            if isf and (abs(x) < 1e-37 or abs(x) > 1e37):
                 continue
+            xr = struct.unpack("<f", struct.pack("<f", x))[0] if isf else x   # the float overload sees x rounded to float
             cbrt_checked += 1
             good = (r == r and abs(r) != float("inf") and (r > 0) == (xr > 0) and (r < 0) == (xr < 0)
                     and abs(Fr(r) ** 3 - Fr(xr)) <= tol * abs(Fr(xr)))
